@@ -6,7 +6,7 @@ From GZ Require Import C06.Model.
 Import ListNotations.
 Open Scope Z_scope.
 
-Definition f7_cfg : config := mkCfg (100 * sec) (10 * sec) [].
+Definition f7_cfg : config := mkCfg (100 * sec) (10 * sec) [] false.
 Definition f7_rows : table := [(1, (7, 41))].
 (* Take -> v1; cache outage; Exec(v2) "succeeds" (DelCtx logs, schedules the retry, returns
    nil); recovery; Take -> v1 *)
@@ -43,7 +43,7 @@ Theorem coherence_refuted_after_give_up :
     cfault s = [] /\ pending s = [] /\ dirty s (KP p) = true /\
     step c s (OTake p t) = (s, mkObs (RRow p u v) 0 0) /\ db_get p (db s) <> Some (u, v).
 Proof.
-  exists (mkCfg 0 0 []), f7_rows,
+  exists (mkCfg 0 0 [] false), f7_rows,
     [OTake 1 604800; OCFault 0 true; OExec 1 (Some (7, 42)) [KP 1; KU 7]; OClean 200000; OCFault 0 false],
     1, 100, 7, 41.
   vm_compute. repeat split; discriminate.
@@ -70,5 +70,112 @@ Proof. vm_compute. reflexivity. Qed.
    ttl_finite_and_banded asks for >= 2 ns *)
 Example one_nanosecond_expiry_may_persist :
   ttl_ok 1 0 = true /\
-  find (KP 1) (cache (fst (step (mkCfg 1 1 []) (init f7_rows) (OTake 1 0)))) = Some (mkEntry (CRow 7 41) None).
+  find (KP 1) (cache (fst (step (mkCfg 1 1 [] false) (init f7_rows) (OTake 1 0)))) = Some (mkEntry (CRow 7 41) None).
 Proof. vm_compute. split; reflexivity. Qed.
+
+(* ------------------------------------------------------------------ pinned variants of seeded changes *)
+From GZ Require Import C06.Codec.
+
+(* (seeded C06-3) QueryRowIndexCtx "normalises" the primary key decoded from the index entry
+   through float64 before handing it to keyer / primaryQuery: on the index-HIT path the key is
+   [round53 p].  The first read (index miss, native key) is right, the second read of the very
+   same index value returns ANOTHER row (or not-found): coherence fails in a history with no
+   write, no outage and no time passing at all.  Keys up to 2^53 never show it
+   (CodecProofs.normalize_float_small). *)
+Definition query_index_norm (c : config) (s : state) (u t : Z) : state * obs :=
+  let ik := KU u in
+  if key_down c s ik then (s, mkObs RCErr 0 0)
+  else
+    match lookup (clock s) (cache s) ik with
+    | Some (mkEntry CHole _) => (s, mkObs RNf 0 0)
+    | Some (mkEntry (CPk p) _) => take_primary c s (round53 p) t
+    | Some (mkEntry (CRow _ _) _) => (s, mkObs RIllTyped 0 0)
+    | None => load_index c s u t
+    end.
+
+Definition step_norm (c : config) (s : state) (o : op) : state * obs :=
+  match o with OQri u t => query_index_norm c s u t | _ => step c s o end.
+
+Theorem index_hit_float_normalised_refuted :
+  exists c rows u t p v,
+    NoDup (map fst rows) /\ db_get p rows = Some (u, v) /\ is_int64 p = true /\
+    let s1 := fst (step_norm c (init rows) (OQri u t)) in
+    (* first read: through the index query, correct, both entries written *)
+    snd (step_norm c (init rows) (OQri u t)) = mkObs (RRow p u v) 1 0 /\
+    cfault s1 = [] /\ pending s1 = [] /\ lost s1 = [] /\ db s1 = rows /\
+    (* second read: another row *)
+    (exists p' u' v', oret (snd (step_norm c s1 (OQri u t))) = RRow p' u' v' /\ p' <> p /\ u' <> u) /\
+    (* whereas the model of the real code serves the row from the cache *)
+    step c s1 (OQri u t) = (s1, mkObs (RRow p u v) 0 0).
+Proof.
+  exists f7_cfg, [(2 ^ 53 + 1, (7, 41)); (2 ^ 53, (8, 5))], 7, 100, (2 ^ 53 + 1), 41.
+  split; [repeat constructor; cbn; intuition discriminate|].
+  vm_compute. repeat split; try discriminate.
+  exists 9007199254740992, 8, 5. repeat split; discriminate.
+Qed.
+
+(* with one row only: the configured not-found error although the row exists, and a
+   placeholder cached under a key no row has *)
+Theorem index_hit_float_normalised_notfound :
+  exists c rows u t p v,
+    db_get p rows = Some (u, v) /\
+    let s1 := fst (step_norm c (init rows) (OQri u t)) in
+    oret (snd (step_norm c s1 (OQri u 10))) = RNf /\
+    find (KP (p - 1)) (cache (fst (step_norm c s1 (OQri u 10)))) = Some (mkEntry CHole (Some 10000)).
+Proof.
+  exists f7_cfg, [(2 ^ 53 + 1, (7, 41))], 7, 100, (2 ^ 53 + 1), 41.
+  vm_compute. repeat split.
+Qed.
+
+(* (seeded C15-3) cacheCluster.DelCtx hands every node the SAME scratch slice: the retry task a
+   failed node keeps (asyncRetryDelCache closes over the slice) ends up holding the keys of the
+   node processed last.  After the retry has run - every node up, no timer left, nothing given
+   up - the failed node's own key is still cached: a stale read that is NOT an instance of F7
+   (no invalidation is outstanding any more). *)
+Definition del_on_node_shared (c : config) (lastn n : Z) (keys : list key) (s : state) : state :=
+  let ks := filter (fun k => node_of c k =? n) keys in
+  match ks with
+  | [] => s
+  | _ =>
+    if node_down s n then
+      mkState (db s) (dbFault s) (cache s) (cfault s)
+              (pending s ++ [first_task (filter (fun k => node_of c k =? lastn) keys) n]) (lost s) (clock s)
+    else del_on_node c n keys s
+  end.
+
+Definition del_keys_shared (c : config) (keys : list key) (s : state) : state :=
+  let ns := nodes_of c keys in
+  fold_left (fun s n => del_on_node_shared c (last ns 0) n keys s) ns s.
+
+Definition step_shared (c : config) (s : state) (o : op) : state * obs :=
+  match o with
+  | OExec p (Some (u, v)) keys =>
+    if dbFault s || u_taken p u (db s) then (s, mkObs RDbErr 0 0)
+    else (del_keys_shared c keys (mkState (db_put p (u, v) (db s)) (dbFault s) (cache s) (cfault s)
+                                          (pending s) (lost s) (clock s)), mkObs ROk 0 0)
+  | ODel keys => (del_keys_shared c keys s, mkObs ROk 0 0)
+  | _ => step c s o
+  end.
+
+Fixpoint final_shared (c : config) (s : state) (ops : list op) : state :=
+  match ops with
+  | [] => s
+  | o :: ops' => final_shared c (fst (step_shared c s o)) ops'
+  end.
+
+Theorem shared_scratch_slice_refuted :
+  exists c rows ops p t u v,
+    NoDup (map fst rows) /\ all_disciplined c (init rows) ops = true /\
+    let s := final_shared c (init rows) ops in
+    (* the retry has run: nothing is outstanding, every node is up *)
+    cfault s = [] /\ pending s = [] /\ lost s = [] /\ dirty s (KP p) = false /\
+    step_shared c s (OTake p t) = (s, mkObs (RRow p u v) 0 0) /\ db_get p (db s) <> Some (u, v) /\
+    (* the model of the real code: the same history leaves the key invalidated *)
+    lookup (clock (final c (init rows) ops)) (cache (final c (init rows) ops)) (KP p) = None.
+Proof.
+  exists (mkCfg (100 * sec) (10 * sec) [(KU 7, 1)] false), f7_rows,
+    [OTake 1 100; OQri 7 100; OCFault 0 true; OExec 1 (Some (7, 42)) [KP 1; KU 7]; OCFault 0 false; OClean 1],
+    1, 100, 7, 41.
+  split; [repeat constructor; cbn; intuition|].
+  vm_compute. repeat split; discriminate.
+Qed.
